@@ -483,6 +483,59 @@ func checkC19(w *World, r *Report) {
 		}
 	})
 
+	r.Rule("R19.12", "XML elements of one leaf-list make one node wherever they stand among their siblings: in the reader's leaf-list arm a collecting node is created only when the per-name table has no entry for that name (`!ok` of fields[name]), is entered into the table, and every element is appended to the node the table gives", 1)
+	r.guard("R19.12", func() {
+		ep := w.Pkg("data/encoding")
+		fd, _ := w.FuncDecl(w.Method("data/encoding", "unmarshaledXML", "unserializedChildren"))
+		// the comma-ok lookup
+		var okObj, vObj types.Object
+		var tableExpr string
+		ast.Inspect(fd.Body, func(n ast.Node) bool {
+			as, ok := n.(*ast.AssignStmt)
+			if !ok || len(as.Lhs) != 2 || len(as.Rhs) != 1 {
+				return true
+			}
+			ix, ok := as.Rhs[0].(*ast.IndexExpr)
+			if !ok {
+				return true
+			}
+			if _, isMap := ep.TypesInfo.TypeOf(ix.X).Underlying().(*types.Map); isMap {
+				vObj, okObj = objOfIdent(ep, as.Lhs[0]), objOfIdent(ep, as.Lhs[1])
+				tableExpr = types.ExprString(ix)
+			}
+			return true
+		})
+		good := false
+		ast.Inspect(fd.Body, func(n ast.Node) bool {
+			cc, ok := n.(*ast.CaseClause)
+			if !ok || len(cc.List) != 1 || !strings.HasSuffix(types.ExprString(cc.List[0]), "LeafList") {
+				return true
+			}
+			creates, appendsAfter := false, false
+			for _, st := range cc.Body {
+				if is, ok := st.(*ast.IfStmt); ok {
+					if u, ok := ast.Unparen(is.Cond).(*ast.UnaryExpr); ok && u.Op == token.NOT && objOfIdent(ep, u.X) == okObj && okObj != nil {
+						enters := false
+						for _, s2 := range is.Body.List {
+							if as, ok := s2.(*ast.AssignStmt); ok && len(as.Lhs) == 1 && types.ExprString(as.Lhs[0]) == tableExpr {
+								enters = true
+							}
+						}
+						creates = enters
+					}
+				}
+				if as, ok := st.(*ast.AssignStmt); ok && len(as.Lhs) == 1 {
+					if se, ok := as.Lhs[0].(*ast.SelectorExpr); ok && se.Sel.Name == "Children" && objOfIdent(ep, se.X) == vObj {
+						appendsAfter = creates
+					}
+				}
+			}
+			good = creates && appendsAfter
+			return true
+		})
+		r.Check(good && okObj != nil, "R19.12", "XML reader: leaf-list entries are collected per name", fd.Pos(), "if !ok { v = new; fields[name] = v; … }; v.Children = append(v.Children, c)", "the collecting node of a leaf-list is not looked up by name in the table of children seen so far: entries of two leaf-lists that interleave in the document are split into several nodes, and the XML decoding differs from the JSON decodings of the same data")
+	})
+
 	r.Rule("R19.5", "the JSON writer emits well-formed, faithfully escaped text: every string-like value goes through json.Marshal (no hand-written quoting), and in every arm of the child encoder the '[' / '{' written are closed on every path", 6)
 	r.guard("R19.5", func() {
 		wv := w.Method("data/encoding", "JSONWriter", "writeValue")
